@@ -194,7 +194,7 @@ func init() { register("C04", runC04) }
 func TestC04(t *testing.T) {
 	// single-op-per-structure transactions: one call per transaction for list/set/zset
 	// (C13's in-transaction visibility must not interfere), multi-op for KV.
-	p := mixedParams{Modes: []int{0, 0, 1, 2}, Segs: []int64{200, 333, 1024}, Buckets: []string{"b", "bb", "b|", "", "ab", "a"},
+	p := mixedParams{Modes: []int{0, 0, 1, 2}, Segs: []int64{200, 333, 1024}, Buckets: []string{"b", "bb", "b|", "", "ab", "a", "a.b", "b.meta"},
 		MinB: 2, MaxB: 3, MaxSteps: 25, MaxOps: 1, ReopenPct: 10, Structs: true, ReadsInTx: true, MultiKV: 5}
 	runProperty(t, "C04", genMixedCase(p), runC04)
 }
